@@ -129,6 +129,7 @@ def proof_stage(prop, plan, tier, registry):
             rep.paths = rep.returns = 1
             rep.obligations = os_
             rep.presolved = True
+            rep.bkey = f"{q}@{prov}"
             rep.tasks = {}
             rep.trusted.add("sympy 1.14 (simplification to zero) for derivative obligations" if "derivative" in os_[0]["name"] else
                             ("assumed ownership contracts of NumPy primitives (which results are views / fresh, which calls write): pyvc/own.py tables" if "#frame:" in os_[0]["name"] else "AST pattern obligations (no solver)"))
@@ -212,7 +213,7 @@ def run_property(prop, tier, seed):
     sample_obls = []
     for rep in reports:
         labels = summarize_function(rep)
-        base = baseline.get(rep.qual, {})
+        base = baseline.get(getattr(rep, "bkey", rep.qual), {})
         nf = len([o for o in rep.obligations if o["kind"] != "cover"])
         nd = len([o for o in rep.obligations if o["kind"] != "cover" and o["status"] == "discharged"])
         n_obl += nf
@@ -299,7 +300,7 @@ def run_property(prop, tier, seed):
         if k:
             known_hits.append(f"KNOWN-FINDING: property={prop} {k['what']} [obligation {lab}]")
             continue
-        base = baseline.get(rep.qual, {})
+        base = baseline.get(getattr(rep, "bkey", rep.qual), {})
         # counterexample: a stand-in failure of a check that exercises this function
         cex = [f for f in st_fail if rep.qual in checks[f["check"]].funcs and not known_match(known, "standin", f["check"], f["sig"])]
         path = os.path.join(REPLAY_DIR, f"{prop}-obl-{zlib.crc32(lab.encode()):08x}.json")
@@ -427,9 +428,10 @@ def rebaseline(props):
         reports, _ = proof_stage(prop, plan, "quick", registry)
         for rep in reports:
             labels = summarize_function(rep)
-            base[rep.qual] = {lab: "discharged" for lab, st in labels.items() if st == "discharged"}
+            bk = getattr(rep, "bkey", rep.qual)
+            base[bk] = {lab: "discharged" for lab, st in labels.items() if st == "discharged"}
             bad = {lab: st for lab, st in labels.items() if st != "discharged"}
-            print(f"{rep.qual}: {len(base[rep.qual])} discharged labels; not discharged: {bad}; aborts: {len(rep.aborts)}")
+            print(f"{bk}: {len(base[bk])} discharged labels; not discharged: {bad}; aborts: {len(rep.aborts)}")
     json.dump(base, open(BASELINE_PATH, "w"), indent=1, sort_keys=True)
 
 
